@@ -304,6 +304,10 @@ func renderStringarray(data map[string]any, key, oldkey string, example string) 
 
 	var output []string
 	for _, s := range sa {
+		// user values may need quoting (leading spaces, #, :, backticks, brackets ...)
+		if comment == "" {
+			s = yamlf(s)
+		}
 		output = append(output, fmt.Sprintf("%s- %s", comment, s))
 	}
 	return comment + key + ":\n      " + strings.Join(output, "\n      ")
